@@ -115,6 +115,81 @@ func JSONMethods(c *core.Ctx) {
 						ret, ok := cc.Body[len(cc.Body)-1].(*ast.ReturnStmt)
 						return ok && len(ret.Results) == 1 && !isNilIdent(info, ret.Results[0])
 					})
+					// …or the inverted guard (`if r != nil { decode; return err }; return fp.Error(…)`): every dereference
+					// lies inside the body of an if whose condition has the conjunct `r != nil` (or the else of `r == nil`),
+					// and some return constructs an error value
+					if !errRet {
+						conj := func(e ast.Expr, op token.Token, cmp token.Token) bool {
+							var parts []ast.Expr
+							var split func(e ast.Expr)
+							split = func(e ast.Expr) {
+								if be, ok := ast.Unparen(e).(*ast.BinaryExpr); ok && be.Op == op {
+									split(be.X)
+									split(be.Y)
+									return
+								}
+								parts = append(parts, ast.Unparen(e))
+							}
+							split(e)
+							for _, pe := range parts {
+								if be, ok := pe.(*ast.BinaryExpr); ok && be.Op == cmp &&
+									(objOf(info, be.X) == recv && isNilIdent(info, be.Y) || objOf(info, be.Y) == recv && isNilIdent(info, be.X)) {
+									return true
+								}
+							}
+							return false
+						}
+						safe := map[ast.Node]bool{}
+						ast.Inspect(fb.Body, func(x ast.Node) bool {
+							if is, ok := x.(*ast.IfStmt); ok {
+								if conj(is.Cond, token.LAND, token.NEQ) {
+									safe[is.Body] = true
+								}
+								if is.Else != nil && conj(is.Cond, token.LOR, token.EQL) {
+									safe[is.Else] = true
+								}
+							}
+							return true
+						})
+						allInside := len(safe) > 0
+						var stack []ast.Node
+						ast.Inspect(fb.Body, func(x ast.Node) bool {
+							if x == nil {
+								stack = stack[:len(stack)-1]
+								return true
+							}
+							stack = append(stack, x)
+							isD := false
+							switch sx := x.(type) {
+							case *ast.StarExpr:
+								isD = objOf(info, sx.X) == recv
+							case *ast.SelectorExpr:
+								isD = objOf(info, sx.X) == recv
+							}
+							if isD {
+								in := false
+								for _, anc := range stack {
+									if safe[anc] {
+										in = true
+									}
+								}
+								if !in {
+									allInside = false
+								}
+							}
+							return true
+						})
+						if allInside {
+							errRet = nodeContains(fb.Body, false, func(x ast.Node) bool {
+								ret, ok := x.(*ast.ReturnStmt)
+								if !ok || len(ret.Results) != 1 {
+									return false
+								}
+								_, isCall := ast.Unparen(ret.Results[0]).(*ast.CallExpr)
+								return isCall && !isDeref(ret.Results[0])
+							})
+						}
+					}
 					if errRet && len(cg.Blocks) > 0 && unguardedReach(cg.Blocks[0], -1, isDeref, isNilTest) == nil {
 						guarded = true
 					}
